@@ -131,7 +131,7 @@ claim('C15', 'Coq proof (classification = specification by case analysis; counte
       'Theorems (Props/C15.v) for every task graph, store state (dependency-closed or not) and lock state: a task is counted complete iff stored, else waiting iff a direct '
       'dependency is not stored, else failed/active/ready by its lock; exactly one column; cells, per-name sums and the Total row add up to the tasks; for every '
       'history in which results only grow (locks arbitrary) every cached call prints what the uncached command prints (sticky finished/ready entries stay true); '
-      'check = 0 iff every task is complete, on every store state; the cached mode accepts exactly the jugfiles whose dependencies are created before their consumers (its documented precondition) and refuses the others.  Tie: generated jugfiles x 2-4-state monotone histories x held/failed locks x file/packed/dict/'
+      'check = 0 iff every task is complete, on every store state; in every reachable state of the N-worker execution protocol (Model/Exec.v) the column says what workers can do: complete - never started again, waiting - a dependency is missing and no worker can start it, failed - nobody can acquire the lock, active - a worker is between get and release on it (or died there), ready - any idle worker can lock, re-check and call the function right now (Proofs/ExecStatusFacts.v); the cached mode accepts exactly the jugfiles whose dependencies are created before their consumers (its documented precondition) and refuses the others.  Tie: generated jugfiles x 2-4-state monotone histories x held/failed locks x file/packed/dict/'
       'fake-redis: every table cell, Total row, exit status, and the full sqlite cache content after every call.',
       'Kernel + vm_compute; graph = what Task.dependencies() yields; wf_dag checked per observed graph; results not removed and jugfile unchanged between cached calls '
       '(hypotheses of the property); fake redis; sqlite3 and the table/cache parsers trusted; no concurrent modification during a command.',
@@ -159,7 +159,7 @@ claim('C18', 'Coq proof (compound = builder in place + one task with the probe h
       'DESIGN.md sec. 3 C18')
 
 _EXEC_TIE = 'Tie (trace validation): the real jug.jug.execution_loop runs in lock-step worker threads (1-9 workers, late joiners, early leavers, generated schedules incl. all interleavings for tiny cases) over proxy stores/locks on dict, file, packed file and fake-redis backends, programs with free constructor task functions over rich argument structures; every recorded trace must be accepted by Model/Exec.v `run` and end in the store the model predicts (coqc, vm_compute); direct oracles on the real runs in Python.'
-_EXEC_NOTE = 'Kernel + vm_compute; hypotheses: task functions deterministic and reading only their dependencies (`framed`, proved for the generated programs), acyclic task graph closed under dependencies (`wf_prog`, checked per case); store and lock operations atomic at the API level (primitive-level atomicity: C04/C05); harness: program generator/realiser, lock-step scheduler, proxy stores, fake redis, interning. The ExecuteCommand wrapper (signal handler installation, barrier reload loop, exit status accumulation) is covered by C14 and by subprocess runs in the thorough tier only.'
+_EXEC_NOTE = 'Kernel + vm_compute; hypotheses: task functions deterministic and reading only their dependencies (`framed`, proved for the generated programs), acyclic task graph closed under dependencies (`wf_prog`, checked per case); store and lock operations atomic at the API level (primitive-level atomicity: C04/C05) - these and the other hypotheses that are properties of this list are NOT assumed silently: the check re-checks their theorems and re-runs their ties to the code with a reduced budget (harness HYPOTHESES: C01<-C06,C08,C14; C02<-C04,C06; C03<-C16; C11<-C04; C12<-C05; C13<-C05,C04; DESIGN.md sec. 1.6) and reports a failure there as a violation of this property (replay marked via_hypothesis); harness: program generator/realiser, lock-step scheduler, proxy stores, fake redis, interning. The ExecuteCommand wrapper (signal handler installation, barrier reload loop, exit status accumulation) is covered by C14 and by subprocess runs in the thorough tier only.'
 claim('C01', 'Coq proof (safety invariant of the N-worker execution protocol preserved by every step; uniqueness of sound stores; completeness at quiescence by a ghost-clock invariant) + trace validation of real multi-worker runs in coqc + sequential-evaluation oracle',
       'Theorems (Props/C01.v) over Model/Exec.v for any number of workers, every DAG and every interleaving: every value ever stored IS the value of '
       'sequential evaluation (also mid-way and with failures, stops, crashes); when every worker has left without stop request or crash exactly the tasks that '
@@ -168,7 +168,7 @@ claim('C01', 'Coq proof (safety invariant of the N-worker execution protocol pre
 claim('C02', 'Coq proof (lock-ownership invariant => mutual exclusion; re-check under the lock => no start once stored; ghost call counter => exactly once) + trace validation of real multi-worker runs in coqc + invocation-log oracle',
       'Theorems (Props/C02.v) for any number of workers and every interleaving: two workers are never inside the function of the same task; once a result '
       'is stored the start event is not enabled, the call counter never moves and the value is never overwritten, whatever follows; absent failures, stops and '
-      'crashes every function is called at most once, exactly once if it ends up stored - also across repeated executes.  ' + _EXEC_TIE, _EXEC_NOTE, 'DESIGN.md sec. 3 C02')
+      'crashes every function is called at most once, exactly once if it ends up stored - also across repeated executes; the lock calls of any run, replayed on the atomic lock specification that C04 proves of every backend, get exactly the observed answers and end in the protocol\'s lock table (Proofs/ExecLockFacts.v).  ' + _EXEC_TIE, _EXEC_NOTE, 'DESIGN.md sec. 3 C02')
 claim('C03', 'Coq proof (start guard + dependency-closedness of sound stores; frame/blame theorems of argument resolution; completeness of the dependency walk) + trace validation of real multi-worker runs in coqc + differential evaluation of value()/dependencies() (C16 tie)',
       'Theorems (Props/C03.v): when the function of a task is started every direct and indirect dependency has its result; what is returned and stored is the '
       'function applied to the stored results, for programs literally the free function applied to value() of each argument expression; the code\'s dependency walk '
@@ -178,7 +178,7 @@ claim('C11', 'Coq proof (doomed tasks are never stored and their dependents neve
       'Theorems (Props/C11.v): after a task function raised nothing is ever stored for it or for any task depending on it and no dependent is ever started, in '
       'any continuation; with --keep-going, once every worker has left, exactly the tasks not depending on a failed one are stored; the exit status of a worker not '
       'asked to stop is non-zero iff a task function raised in it; the lock of the failed task is released, or with --keep-failed left marked failed, and a failed '
-      'lock stays failed and cannot be acquired until failed locks are cleaned up.  ' + _EXEC_TIE + '  Raising functions x keep_going x keep_failed, real cleanup --failed-only.', _EXEC_NOTE, 'DESIGN.md sec. 3 C11')
+      'lock stays failed and cannot be acquired until failed locks are cleaned up; the failed marker is the `fail` of the atomic lock specification that C04 proves of every backend (Proofs/ExecLockFacts.v).  ' + _EXEC_TIE + '  Raising functions x keep_going x keep_failed, real cleanup --failed-only.', _EXEC_NOTE, 'DESIGN.md sec. 3 C11')
 claim('C12', 'Coq proof (a stop request is enabled in every protocol state; a stopped worker never dumps, starts or locks again and can only release its lock; exits hold no lock; restart + completeness) + trace validation of real interrupted runs in coqc',
       'Theorems (Props/C12.v): a stop request can arrive while choosing, waiting, holding a lock, inside a task function, between function and dump, after the dump, '
       'and changes no result and no lock; from then on the worker stores nothing, starts nothing, locks nothing - all it can do is release the lock it holds; a worker '
